@@ -191,6 +191,14 @@ def opStarts : M String := do
   let N ← nat
   let L ← nat
   let K ← int
+  if which == "genvec" || which == "gennew" then
+    -- translated closed-form post-processing (shift, D, O) of vectorized_ltf_plan / new_ltf_plan for one bin
+    let La : Arr Int := ⟨1, fun _ => (L : Int)⟩
+    let Ka : Arr Int := ⟨1, fun _ => K⟩
+    let g := if which == "genvec" then Gen.vectorized_ltf_plan_post (α := Float) (N : Int) La Ka
+             else Gen.new_ltf_plan_post (α := Float) (N : Int) La Ka
+    let d := g.2.1.get 0
+    return " ".intercalate ((List.range d.n).map (fun i => toString (d.get i))) ++ " | " ++ fmt (g.2.2.get 0)
   let D := if which == "even" then Model.startsEven (α := Float) N L K
     else if which == "gen" then Gen.ltf_plan_starts (α := Float) (N : Int) (L : Int) K     -- translated from ltf_plan each run
     else Model.startsAccum (α := Float) N L K
